@@ -193,7 +193,9 @@ SMOOTHERS = [('gauss_seidel', {'sweep': 'symmetric'}), ('gauss_seidel', {'sweep'
              ('jacobi', {'omega': 0.8}), ('sor', {'omega': 1.3, 'sweep': 'backward'}),
              ('block_gauss_seidel', {'sweep': 'symmetric', 'blocksize': 1}), ('schwarz', {}),
              ('gauss_seidel_ne', {'sweep': 'forward'}), ('jacobi_ne', {}), ('chebyshev', {'degree': 2}),
-             ('richardson', {'omega': 0.6}), ('block_jacobi', {'blocksize': 1})]
+             ('richardson', {'omega': 0.6}), ('block_jacobi', {'blocksize': 1}),
+             ('chebyshev', {'degree': 3, 'iterations': 2}), ('richardson', {'omega': 0.5, 'iterations': 3}),
+             ('jacobi', {'omega': 0.7, 'iterations': 2}), ('schwarz', {'iterations': 2})]
 
 
 def oracle_part(ctx):
@@ -207,7 +209,10 @@ def oracle_part(ctx):
                 sel.append((bname, f, mname, A))
     an, af, _ = hier.air_builder()
     sel.append((an, af, 'upwind-5x5', hier.nonsym_matrix(5)))
-    for bname, f, mname, A in sel:
+    # every smoother family is used at least once before and once after the coarse-grid correction
+    while len(sel) < len(SMOOTHERS):
+        sel = sel + sel
+    for idx, (bname, f, mname, A) in enumerate(sel):
         np.random.seed(ctx.seed)
         try:
             ml = f(A)
@@ -217,7 +222,7 @@ def oracle_part(ctx):
         coarse = rng.choice(['pinv', 'lu', 'splu'] + (['cholesky'] if bname != 'air' else []))
         from pyamg.multilevel import coarse_grid_solver
         ml.coarse_solver = coarse_grid_solver(coarse)
-        pre, post = rng.choice(SMOOTHERS), rng.choice(SMOOTHERS)
+        pre, post = SMOOTHERS[idx % len(SMOOTHERS)], SMOOTHERS[(5 * idx + 3) % len(SMOOTHERS)]
         from pyamg.relaxation.smoothing import change_smoothers
         try:
             change_smoothers(ml, presmoother=pre, postsmoother=post)
